@@ -441,14 +441,15 @@ impl Suite for Grid {
 pub struct Scaled {
     pub max_k: u32,
 }
+pub const SCALED_SHAPES: u64 = 12;
 
 impl Suite for Scaled {
     fn len(&self) -> u64 {
-        self.max_k as u64 * 10
+        self.max_k as u64 * SCALED_SHAPES
     }
     fn get(&self, i: u64) -> Case {
-        let k = (i / 10 + 1) as usize;
-        let shape = i % 10;
+        let k = (i / SCALED_SHAPES + 1) as usize;
+        let shape = i % SCALED_SHAPES;
         let mut t = String::new();
         match shape {
             0 => {
@@ -516,6 +517,24 @@ impl Suite for Scaled {
                 t.push_str("Foo(\'\'\'\n a\n \'\'\', 2);\n");
                 for j in (0..k).rev() {
                     t.push_str(&format!("{}end;\n", " ".repeat(j)));
+                }
+            }
+            10 => {
+                // ONE conditional section with 2k alternatives: every alternative's code must be parsed by some pass
+                t.push_str("{$if V = 0}\nprocedure P0 ;\n");
+                for j in 1..2 * k {
+                    t.push_str(&format!("{{$elseif V = {j}}}\nprocedure   P{j} ( a:Integer ) ;\n"));
+                }
+                t.push_str("{$else}\nprocedure Last ;\n{$ifend}\nbegin\nend;\n");
+            }
+            11 => {
+                // the same as an else / ifdef ladder, k deep
+                for j in 0..k {
+                    t.push_str(&format!("{{$ifdef V{j}}}\nconst C = {j} ;\n{{$else}}\n"));
+                }
+                t.push_str("const C = -1 ;\n");
+                for _ in 0..k {
+                    t.push_str("{$endif}\n");
                 }
             }
             9 => {
